@@ -40,7 +40,66 @@ def budget(tier):
     return {'runs': 4000, 'seconds': 75} if tier == 'quick' else {'runs': 200000, 'seconds': 1500}
 
 
+STEP = {'op': 'train_step', 'which': 'both', 'lam': 1e-3, 'lr': 0.05, 'cost': True}
+
+
+def alphabet(method):
+    """the control alphabet of the statement for one method (plus one training step of loss + cost)"""
+    a = [{'op': 'train_nas_only'}, {'op': 'train_net_only'}, {'op': 'train_net_and_nas'}]
+    if method == 'pit':
+        for f in ('train_features', 'train_rf', 'train_dilation', 'discrete_cost'):
+            a += [{'op': 'set_flag', 'flag': f, 'value': True}, {'op': 'set_flag', 'flag': f, 'value': False}]
+    else:
+        a.append({'op': 'softmax_opts', 'kw': {'temperature': 0.5}})
+        for o in (('hard', 'gumbel', 'disable_sampling') if method == 'mps' else ('hard',)):
+            a += [{'op': 'softmax_opts', 'kw': {o: True}}, {'op': 'softmax_opts', 'kw': {o: False}}]
+        if method == 'sn':
+            a += [{'op': 'set_flag', 'flag': 'train_selection', 'value': True},
+                  {'op': 'set_flag', 'flag': 'train_selection', 'value': False}]
+    a.append(dict(STEP))
+    return a
+
+
+def systematic_sizes(tier):
+    L = 2 if tier == 'quick' else 3
+    sizes = []
+    for m in ('pit', 'mps', 'sn'):
+        n = len(alphabet(m))
+        sizes.append((m, L, sum(n ** k for k in range(1, L + 1))))
+    return sizes
+
+
+def systematic_case(seed, run, tier):
+    """the first runs of every batch enumerate ALL control-call sequences up to length 2 (thorough: 3) over the
+    alphabet of the statement, per method, on one seeded architecture per method that contains frozen and shared
+    components; a training step of loss + cost is appended. Returns None when `run` is beyond the systematic part."""
+    for m, L, size in systematic_sizes(tier):
+        if run < size:
+            a = alphabet(m)
+            n = len(a)
+            k = 1
+            idx = run
+            while idx >= n ** k:
+                idx -= n ** k
+                k += 1
+            seq = []
+            for _ in range(k):
+                seq.append(json.loads(json.dumps(a[idx % n])))
+                idx //= n
+            cfg = sched.gen_cfg(Stream(seed, ID, 'systematic', m, 'swarm'), Stream(seed, ID, 'systematic', m, 'arch'),
+                                methods=(m,), weights=(1,))
+            for kk in ('disable_sampling', 'exclude_types'):
+                cfg['ctor'].pop(kk, None)
+            return {'cfg': cfg, 'ops': seq + [dict(STEP)], 'run_seed': mix(seed, ID, 'systematic', m, 'run'),
+                    'systematic': True}
+        run -= size
+    return None
+
+
 def generate(seed, run, tier):
+    sc = systematic_case(seed, run, tier)
+    if sc is not None:
+        return sc
     sw = Stream(seed, ID, run, 'swarm')
     ra = Stream(seed, ID, run, 'arch')
     rs = Stream(seed, ID, run, 'schedule')
@@ -97,7 +156,7 @@ def execute(case):
     method = cfg['method']
     run_seed = case['run_seed']
     events, failures, stats = [], [], {}
-    cover = {'abstract_states': set(), 'transitions': set()}
+    cover = {'abstract_states': set(), 'transitions': set(), 'systematic_control_sequences': set()}
 
     def bump(k, n=1):
         stats[k] = stats.get(k, 0) + n
@@ -375,6 +434,11 @@ def execute(case):
             opts['hard'], opts['gumbel'], opts['disable_sampling'] = h_, g_, d_
             participated.clear()
 
+    if case.get('systematic'):
+        bump('systematic_control_sequences')
+        cover['systematic_control_sequences'].add(method + ':' + '>'.join(
+            op_label(o) + ('=' + str(o.get('value', '')) if o['op'] == 'set_flag' else '') +
+            ('=' + json.dumps(o['kw'], sort_keys=True) if o['op'] == 'softmax_opts' else '') for o in case['ops'][:-1]))
     check_frozen_set('construction')
     check_static('construction', 'after construction')
     cover['abstract_states'].add(repr(abstract_state()))
